@@ -111,7 +111,7 @@ for _k in ERRORS:
     _mk(_k)
 
 
-@harness('C16', 'speculative-gating', functions=['cassandra.cluster.Session._create_response_future'])
+@harness('C16', 'speculative-gating', functions=['cassandra.cluster.Session._create_response_future'], native='contracts.native.c46:replay')
 def gating(vc):
     """ensures the speculative execution plan given to a ResponseFuture comes from the policy only for idempotent statements;
     a non-idempotent statement always gets the no-speculation plan"""
